@@ -45,7 +45,8 @@ CHUNK = 8
 STRUCT = ["sni_no_hostname", "psk_empty", "dup_ext", "drop_ext",
           "unknown_ext", "ske_curve_type", "cert_unknown_oid",
           "keyupdate_unknown", "suite_not_offered", "compression_bad",
-          "cert_bomb", "empty_suites", "alert_weird", "heartbeat_bad"]
+          "cert_bomb", "empty_suites", "alert_weird", "heartbeat_bad",
+          "empty_inner13"]
 RECORD = ["oversize_record", "empty_record", "unknown_type", "sslv2_garbage",
           "hs_len_max_eof"]
 PROBES = mutate.GENERIC + STRUCT + RECORD + [
@@ -199,7 +200,7 @@ def run(job, streams=None):
             versions = [(3, 3), (3, 1), (3, 2), (3, 0)]
             allow = ["cert", "cert_cauth", "ecdh_anon"]
             force_victim = "c"
-        elif pre_kind == "keyupdate_unknown":
+        elif pre_kind in ("keyupdate_unknown", "empty_inner13"):
             versions = [(3, 4)]
         elif pre_kind == "suite_not_offered":
             force_victim = "c"
@@ -243,6 +244,14 @@ def run(job, streams=None):
             return lambda: ep.conn._sendMsg(op[2])
         if op[1] == "keyupdate":
             return lambda: ep.conn.send_keyupdate_request(1)
+        if op[1] == "empty_inner":
+            rl = ep.conn._recordLayer
+
+            def empty():
+                body = rl._encryptThenSeal(bytearray(0), 23)
+                for r in rl._recordSocket.send(M.Message(23, body)):
+                    yield r
+            return empty
 
     def post_script():
         s = []
@@ -304,7 +313,7 @@ def run(job, streams=None):
             alert = M.Alert().create([0, 255, 120, 41][ch.draw(4, "mu.ad")],
                                      [0, 3, 1, 2][ch.draw(4, "mu.al")])
             desc = {"kind": kind, "alert": [alert.level, alert.description]}
-        elif kind == "heartbeat_bad":
+        elif kind in ("heartbeat_bad", "empty_inner13"):
             desc = {"kind": kind}
         else:
             def rule(msg, c):
@@ -387,6 +396,9 @@ def run(job, streams=None):
                            + b"p" * 16, b"\x01\x00\x02ab" + b"p" * 3][
                         ch.draw(5, "mu.hb")]
                     scr.append([pname, "send", M.Message(24, bytearray(raw))])
+                    fired.append(kind)
+                elif kind == "empty_inner13":
+                    scr.append([pname, "empty_inner"])
                     fired.append(kind)
                 scr += post_script()
             else:
